@@ -88,7 +88,7 @@ func ruleReadDirOrder(r *Run, p *Program, rule string) {
 			}
 		}
 	}
-	r.universe(rule, n, 3)
+	r.universe(rule, n, 1) // three hand-written loops on the reference tree; one when they share a helper
 }
 
 // visitorStopsOnlyFailing: the exit condition cd of a loop in f is a boolean result of a call of one of f's function
